@@ -1,4 +1,8 @@
 mod storage;
+#[cfg(aquatic_verif)]
+pub mod verif_storage {
+    pub use super::storage::*;
+}
 
 use std::cell::RefCell;
 use std::rc::Rc;
